@@ -51,7 +51,7 @@ PROPS = {
     ),
     "C04": dict(
         title="Interrupted operations resume to the same result",
-        lean=["LP.Props.C04loop", "LP.Props.C08", "LP.Props.C04select", "LP.Props.C03final", "LP.Props.C04unstuck", "LP.Props.C04unstuck2"],
+        lean=["LP.Props.C04loop", "LP.Props.C08", "LP.Props.C04select", "LP.Props.C03final", "LP.Props.C04unstuck", "LP.Props.C04unstuck2", "LP.Props.C04unstuck3"],
         profiles=[("chunks", ALL_VARIANTS), ("life", ALL_VARIANTS)],
         R={"ret": SELECT_EPS, "st": (SELECT_EPS, None), "draws": SELECT_EPS, "hang": ANY},
         D={k: SELECT_EPS for k in ["op", "status", "p2i", "batch", "flags", "nrw", "last", "cpay", "wl", "payers",
